@@ -19,15 +19,15 @@ CHECKS = {
    note=SC_NOTE),
  "C02": dict(level="exploration", design="5/C02",
    technique="deterministic simulation family S-C: chains of the engine's own generated successors walked next to the referee, field-by-field successor and descriptor oracle",
-   text="Every successor of every visited position, and successors of special successors two plies deep chained from the engine's own BoardState, is compared field by field (placement, side, rights, ep target, king cache, sentinel ring) with the referee's apply(p, m), and its descriptor with m.",
+   text="Every successor of every visited position, successors of special successors two plies deep chained from the engine's own BoardState, and the successors of capture-only generation are compared field by field (placement, side, rights, ep target, king cache, sentinel ring) with the referee's apply(p, m), and the descriptor with m.",
    note=SC_NOTE),
  "C04": dict(level="exploration", design="5/C04",
    technique="deterministic simulation family S-C: the text-move applier, the generator chain and the referee driven through the same histories; invariant after every prefix plus text round trip of every generated move",
-   text="The applier (play_out_position/make_move through the H5 wrappers) is stepped next to the generator chain and the referee over every prefix of generated games up to 200 plies; position, hash and generator agreement are checked after each move, and every generated move is printed and replayed.",
+   text="The applier (play_out_position/make_move through the H5 wrappers) is stepped next to the generator chain and the referee over every prefix of generated games up to 200 plies; position, hash and generator agreement are checked after each move, and every generated move is printed and replayed. The same clause is observed through the real command loop: simulated sessions of 1-4 position commands (same game again, prefix, continuation, another game, the same move list from a different start) with the probed board compared against the referee.",
    note=SC_NOTE),
  "C05": dict(level="exploration", design="5/C05",
    technique="deterministic simulation family S-C: incremental key vs key recomputed from scratch after every step of three producers, route-independence over recurring positions, toggle sensitivity",
-   text="After every step of the FEN loader, the text applier and the generator chain the incremental key must equal the from-scratch key of the referee position; positions reached twice by different routes must carry the same key; toggling any component must change the model key.",
+   text="After every step of the FEN loader, the text applier and the generator chain the incremental key must equal the from-scratch key of the referee position; positions reached twice by different routes must carry the same key; toggling any component must change the model key; in simulated sessions the key of the board held after position and after go is recomputed too.",
    note=SC_NOTE),
  "C13": dict(level="exploration", design="5/C13",
    technique="deterministic simulation family S-C: capture-only generation followed recursively from the engine's own successors (as quiescence does) with the referee position carried alongside",
@@ -55,11 +55,11 @@ CHECKS = {
    note="Exhaustive only over the EOF boundaries of the scripts drawn; scripts and noise placement are sampled. Noise is valid UTF-8 not beginning with a known command word."),
  "C07": dict(level="fault_enumeration", design="5/C07",
    technique="deterministic simulation family S-B: the real get_best_move under a scripted clock that expires at the k-th query, for every k of each sampled position (crash-point enumeration), compared with a reference run under an unlimited clock",
-   text="For each sampled position (half with a game history in the repetition record) the clock is made to expire at every query index k in [0, K] (all k when K <= 1500; otherwise all k <= 300, +-3 around every send/info boundary and 300 sampled). Per k: no panic; boards handed back are a prefix of the unlimited run's (one legal first-in-ordering board when nothing completed); info lines are a prefix; the repetition record is unchanged; no sentinel in any score.",
+   text="For each sampled position (half with a game history in the repetition record) the clock is made to expire at every query index k in [0, K] (all k when K <= 1500; otherwise all k <= 300, +-3 around every send/info boundary and 300 sampled). Per k: no panic; boards handed back are a prefix of the unlimited run's (one legal first-in-ordering board when nothing completed); info lines are a prefix; the repetition record is unchanged; no sentinel in any score. Each position is also run with an allowance of 2^63-1 .. u128::MAX ms that the clock never reaches: the reported sequence must be the reference's.",
    note="Exhaustive over expiry points only for the positions drawn (and only when K <= 1500); positions are sampled; search depth in simulation is <= 3 (4 in thorough). The unlimited-clock reference is itself anchored by C12 and C18."),
  "C10": dict(level="exploration", design="5/C10",
    technique="deterministic simulation families S-C (real position handler vs a multiset model over shuffle-rich histories) and S-B (real search under a scripted clock on roots offering a repetition)",
-   text="(i) after the real position handler has replayed histories with up to 100 repetitions the record must hold exactly the occurrence count of every position and nothing else (a dirty table from an earlier command is cleared first); (ii) on roots where a clearly worse mover can step into a position that already occurred 2, 3 or 4 times, every completed depth must report a score >= 0.",
+   text="(i) after the real position handler has replayed histories with up to 100 repetitions the record must hold exactly the occurrence count of every position and nothing else - both by calling the handler directly and in simulated sessions of several position commands through the real command loop; (ii) on roots where a clearly worse mover can step into a position that already occurred 2, 3 or 4 times, every completed depth must report a score >= 0.",
    note="Counts are compared by the from-scratch key of the referee position; zero-count entries are treated as absent."),
  "C11": dict(level="exploration", design="5/C11",
    technique="deterministic simulation family S-B: real search to depth 3 under a scripted clock on generated near-mate positions; oracle = independent AND/OR mate solver on the referee",
@@ -75,7 +75,7 @@ CHECKS = {
    note="Weakest fit for this family (no schedule in it); kept because the failure is a crash of the running session. Strings are valid Unicode without NUL."),
  "C18": dict(level="fault_enumeration", design="5/C18",
    technique="deterministic simulation family S-B: every info line emitted at every injected expiry point of the C07 enumeration is checked against a strict grammar and score-bound oracle",
-   text="Same per-position expiry enumeration as C07; each line must match the grammar, depth >= 1 and non-decreasing, mate != 0, |cp| <= 100000 and never the sentinel, first PV move referee-legal, strictly increasing scores within a depth.",
+   text="Same per-position expiry enumeration as C07; each line must match the grammar, depth >= 1 and non-decreasing, mate != 0, |cp| <= 100000 and never the sentinel, first PV move referee-legal, strictly increasing scores within a depth. In addition the stream view: in fault-free simulated sessions every info line between a go and its bestmove must be a line about that go's position (catches lines of an earlier, orphaned search).",
    note="Inherits C07's per-position exhaustiveness; the PV omits promotion letters (not judged)."),
 }
 
